@@ -179,7 +179,7 @@ class FlatCalibration(BaseCalibration):
 
         Additional kwargs are passed to the class initialization.
         '''
-        sensitivity = util.db(vrms) - util.db(magnitude) - util.db(20e-6)
+        sensitivity = util.db(magnitude) - util.db(20e-6) - util.db(vrms)
         return cls(sensitivity=sensitivity, **kwargs)
 
     @classmethod
@@ -261,7 +261,7 @@ class BaseFrequencyCalibration(BaseCalibration):
 
         Additional kwargs are passed to the class initialization.
         '''
-        sensitivity = util.db(vrms) - util.db(magnitude) - util.db(20e-6)
+        sensitivity = util.db(magnitude) - util.db(20e-6) - util.db(vrms)
         return cls(frequency, sensitivity, **kwargs)
 
     @classmethod
